@@ -645,6 +645,18 @@ def gen_twin_instr_cases(seed, n):
         L += ["dump", "step", "dump", "end"]
         lines += L
         lines += ["case " + cid + "#twin"] + L[1:]
+    # deterministic part: CPUID for every small leaf / sub-leaf pair (the random cases draw 64-bit RAX / RCX values, so
+    # a particular leaf is never hit); only RAX, RCX and RSP are written, RBX and RDX keep the constructor's random
+    # values and must come out equal on both machines because the instruction defines them
+    leaves = list(range(0, 0x21)) + [0x40000000, 0x40000001] + [0x80000000 + q for q in range(0, 9)] + [0xffffffff, 0x100000004]
+    for leaf in leaves:
+        for sub in (0, 1, 2, 7, 0xffffffff, 0x100000001):
+            cid = "twcpuid%x_%x:Cpuid" % (leaf, sub)
+            TWIN_EXPLICIT[cid] = {"RAX", "RBX", "RCX", "RDX", "RSP"}
+            L = ["case " + cid, "new 0fa2 1000 1000", "regw 64 RAX %x" % leaf, "regw 64 RCX %x" % sub, "regw 64 RSP 8000",
+                 "allxmm " + " ".join("0" for _ in range(16)), "flags 2", "dump", "step", "dump", "end"]
+            lines += L
+            lines += ["case " + cid + "#twin"] + L[1:]
     return lines
 
 
